@@ -306,6 +306,20 @@ def _run_cb1(case, o, fams, work) -> None:
 def _pfr_and_cli(case, o, family, descs, ref, work, rot_type) -> None:
     from spsdk.crypto.keys import PublicKey
 
+    # the RoT meta block of a debug credential is made from the same keys and hashes to the same value
+    if case["family"] % 3 == 0 and (rot_type == "cert_block_1" or len(descs) >= 2):
+        with o.spsdk("dc_rot_meta"):
+            from spsdk.dat.debug_credential import RotMetaEcc, RotMetaRSA
+
+            files = [_supply(d, "path_pub_pem", work, None) for d in descs]
+            if rot_type == "cert_block_1":
+                meta = RotMetaRSA.load_from_config({"rot_meta": files})
+            else:
+                meta = RotMetaEcc.load_from_config({"rot_meta": files, "rot_id": case.get("used", 0) % len(files)})
+            o.eq("reference", "dc_rot_meta.hash", meta.calculate_hash(), ref)
+            o.eq("dc_rot_meta", "reparse", type(meta).parse(meta.export()).calculate_hash(), ref)
+        o.label("dc_rot_meta")
+
     pfr_fams = _CTX["pfr"].get(rot_type, [])
     if pfr_fams:
         pf = pfr_fams[case["family"] % len(pfr_fams)]
@@ -326,6 +340,22 @@ def _pfr_and_cli(case, o, family, descs, ref, work, rot_type) -> None:
             cfg["settings"]["ROTKH"] = ref.hex() if case["family"] % 2 else "0x" + ref.hex()
             data3 = CMPA.load_from_config(cfg).export(draw=False)
             o.eq("reference", "pfr.rotkh_config", bytes(data3[reg.offset : reg.offset + width]), want)
+            # a page that was provisioned before (other keys, possibly a wider hash) is read and given the new keys: what it held
+            # before does not show in the new value, whichever way the value is supplied
+            old = hashlib.sha384(b"c03 earlier root of trust %d" % case["family"]).digest()[:width]
+            page = CMPA(family=pf).export(rotkh=old, draw=False)
+            for how in ("keys", "value", "config"):
+                prev = CMPA(family=pf)
+                prev.parse(page)
+                if how == "keys":
+                    got = prev.export(keys=keys, draw=False)
+                elif how == "value":
+                    got = prev.export(rotkh=ref, draw=False)
+                else:
+                    c2 = prev.get_config()
+                    c2["settings"]["ROTKH"] = ref.hex()
+                    got = CMPA.load_from_config(c2).export(draw=False)
+                o.eq("invariance", "pfr.rotkh_after_earlier_value:" + how, bytes(got[reg.offset : reg.offset + width]), want)
         o.label("pfr", "pfr:" + pf)
     if case["cli"] == 0:
         with o.spsdk("cli"):
@@ -425,6 +455,15 @@ def _run_ahab(case, o, fams, work) -> None:
         if not v2:
             o.eq("reference", "ahab.srk_hash", h1, R.ahab_srk_hash(raw))
             o.eq("reference", "ahab.srk_table", rot.export(), R.ahab_srk_table(raw))
+            # the RoT meta block of an EdgeLock debug credential carries the same table; its CA option sets the CA flag of every record
+            from spsdk.dat.debug_credential import RotMetaEdgeLockEnclave
+
+            ca = bool(case["family"] % 2)
+            meta = RotMetaEdgeLockEnclave.load_from_config({"rot_meta": [_supply(d, "path_pub_pem", work, None) for d in descs],
+                                                            "rot_id": case["family"] % 4, "flag_ca": ca})
+            o.eq("reference", "dc_rot_meta.srk_table", meta.srk_table.export(), R.ahab_srk_table(raw, [ca] * 4))
+            o.eq("reference", "dc_rot_meta.srk_hash", meta.calculate_hash(), R.ahab_srk_hash(raw, [ca] * 4))
+            o.label("dc_rot_meta", "dc_rot_meta:ca" if ca else "dc_rot_meta:no_ca")
     with o.spsdk("invariance"):
         h2 = Rot(family, rev, [_supply(d, e, work, None) for d, e in zip(descs, case["enc2"])]).calculate_hash()
         if h1 is not None:
